@@ -228,6 +228,14 @@ class Model:
         res2.update(local)
         return res2
 
+    def _local_duplicates(self, layer_sn: str, colls: Iterable[str], name: str) -> bool:
+        """two objects of the same short name in ONE collection of ONE layer (anywhere in the hierarchy of layer_sn)"""
+        for l in [layer_sn] + self.ancestors(layer_sn):
+            for c in colls:
+                if sum(1 for o in self.local_objs(l, c) if o["sn"] == name) > 1:
+                    return True
+        return False
+
     def _imports_offer(self, layer_sn: str, colls: Iterable[str], name: str) -> bool:
         imps, _ = self.imported_layers(layer_sn)
         for i in imps:
@@ -245,6 +253,10 @@ class Model:
             if self._imports_offer(ctx_layer, colls, name):
                 # does an SNREF see the objects of an imported ECU-SHARED-DATA?  The standard is not explicit.
                 return ("DONTCARE", "an imported layer offers an object of that short name")
+            if self._local_duplicates(ctx_layer, colls, name):
+                # ODX forbids two objects of one short name in one collection of a layer (like duplicate IDs in one
+                # document); odxtools keeps the last one in hierarchy layers
+                return ("DONTCARE", "two objects of that short name in one collection of one layer")
             cands: List[Tuple[Dict[str, Any], str]] = []
             for c in colls:
                 for o in self.view(ctx_layer, c).get(name, []):
